@@ -10,6 +10,7 @@ import (
 	"github.com/jcmturner/gokrb5/v8/client"
 	"github.com/jcmturner/gokrb5/v8/config"
 	"github.com/jcmturner/gokrb5/v8/keytab"
+	"github.com/jcmturner/gokrb5/v8/krberror"
 	"github.com/jcmturner/gokrb5/v8/messages"
 
 	"verif/ref/accept"
@@ -79,9 +80,16 @@ func allowed(a assignment, reqLen int) (success, krb6, failure bool, why string)
 	}
 	success = anyAnswer
 	krb6 = anyKrb
+	// The library takes the first reply of any kind it receives on a transport and moves to the next KDC only when an endpoint
+	// gives no reply: if nothing answers correctly but some endpoint sends a KRB-ERROR, that error is what must come back -
+	// unless a response-too-big on UDP may have ended the UDP round before the KRB-ERROR endpoint was reached.
 	switch {
+	case !anyAnswer && !anyKrb:
+		failure, why = true, "no endpoint answers on a permitted transport"
+	case !anyAnswer && udpTooBig:
+		failure, why = true, "no endpoint answers correctly and a response-too-big on UDP may end the UDP round before the KRB-ERROR endpoint is reached"
 	case !anyAnswer:
-		failure, why = true, "no endpoint answers correctly on a permitted transport"
+		why = "no endpoint answers correctly, but one sends a KRB-ERROR: it must be surfaced"
 	case udpTooBig && !tcpAnswer:
 		failure, why = true, "a KDC answered response-too-big on UDP and no KDC answers on TCP"
 	}
@@ -98,7 +106,7 @@ func TestProp(t *testing.T) {
 	r.SetRule("fault enumeration: each configured KDC is a loopback endpoint whose UDP side behaves as one of {answers, refuses, silent, KRB-ERROR(6), response-too-big, empty datagram} and whose TCP side as one of {answers, refuses, silent, KRB-ERROR(6), closes at once, closes inside the length prefix, closes inside the body}; " +
 		"crossed with udp_preference_limit in {1 (TCP only), 10 (smaller than any request: TCP first), 32700 (UDP first)}. 1 KDC: exhaustive (42 x 3); 2 KDCs: exhaustive in thorough (1764 x 3), restricted to <= 1 silent side in quick; 3 KDCs: seeded sample. " +
 		"Oracle: the set of permitted outcomes computed from the assignment alone (the library randomises the KDC order); attempts observed by the endpoints are bounded. distinct = assignment; non-trivial = all")
-	r.Assume("outcome sets: success permitted iff some endpoint answers on a permitted transport; KRB-ERROR 6 permitted iff some endpoint answers it on a permitted transport; plain failure permitted iff nothing answers, or a UDP endpoint said response-too-big and nothing answers on TCP")
+	r.Assume("outcome sets: success permitted iff some endpoint answers on a permitted transport; KRB-ERROR 6 permitted iff some endpoint answers it on a permitted transport; plain failure permitted iff nothing answers and nothing sends a KRB-ERROR, or a UDP endpoint said response-too-big and nothing answers correctly on TCP; a surfaced KRB-ERROR is the KRBError itself or a client error of root cause KDC_Error naming the code")
 	r.Note("'silent' costs the library's hard-coded 5 s per attempt: cases run concurrently; real time, no virtual clock")
 
 	rnd := vh.NewRand("c12")
@@ -280,7 +288,11 @@ func runCase(r *vh.Run, k *simkdc.KDC, kt *keytab.Keytab, a assignment, ck strin
 			return
 		}
 	default:
-		if !okF && !(okK && false) {
+		if !okF && !okS {
+			r.Violation("C12|krb-error-not-surfaced|"+first, "no endpoint answers correctly and one sends KRB-ERROR 6, but the call failed with an error that is not that KDC error: "+opErr.Error(), d)
+			return
+		}
+		if !okF {
 			cls := "other"
 			if carries(opErr, 52) {
 				cls = "response-too-big-surfaced"
@@ -321,9 +333,15 @@ func runCase(r *vh.Run, k *simkdc.KDC, kt *keytab.Keytab, a assignment, ck strin
 	r.SampleKind(outcome+"-"+first, 1, d)
 }
 
+// carries reports whether err is the KDC's error with this code: the KRBError itself, or the client's error classified as
+// coming from the KDC (root cause KDC_Error) whose text names the code. An error of another class that merely quotes the
+// KRB-ERROR in a list of failed attempts is not the KDC's error surfaced.
 func carries(err error, code int32) bool {
-	if ke, ok := err.(messages.KRBError); ok && ke.ErrorCode == code {
-		return true
+	if ke, ok := err.(messages.KRBError); ok {
+		return ke.ErrorCode == code
+	}
+	if ke, ok := err.(krberror.Krberror); ok && ke.RootCause != krberror.KDCError {
+		return false
 	}
 	return strings.Contains(err.Error(), fmt.Sprintf("(%d) ", code))
 }
